@@ -1601,6 +1601,9 @@ func (idx *MergeSetIndex) ClearCache() error {
 		return nil
 	}
 	idx.logger.Info("ClearCache", zap.String("path", idx.path))
+	// Series created since the last flush are known to the caches only: make their items searchable
+	// before the caches are dropped, otherwise the next write of such a series creates a second id.
+	idx.tb.DebugFlush()
 	if err := idx.cache.reset(); err != nil {
 		return err
 	}
